@@ -295,3 +295,141 @@ def ring_protocol(repo, tier="quick"):
                 (obs.append(ob_ok(oid2, fi, call, construct="add_edge(rec[0], rec[1], order=rec[2])", instance="add", reason="the recorded ring bond is added as recorded")) if ok else
                  obs.append(ob_fail(oid2, fi, call, construct=show(ct)[:120], instance="add", reason="the ring bond added differs from the recorded (closing node, opening node, order)")))
     return obs
+
+
+def _scan_loop(model):
+    """the for loop that scans the characters behind a node for ring markers: the innermost for loop around the inline sites"""
+    fi = model.fi
+    loops = []
+    for site in model.sites:
+        ls = [l for l in enclosing_loops(fi, site["node"].id) if l.kind == "for"]
+        if ls:
+            loops.append(ls[0])
+    ids = {l.id for l in loops}
+    if len(ids) != 1:
+        return None
+    return loops[0]
+
+
+def ring_marker_text(repo, tier="quick"):
+    """C04: the text of a ring marker behind a node.  The scanning loop is executed in the abstract evaluator on representative
+    tails (D stands for a digit): `D`, `DD`, `%DD`, `%DD%DD`, `=D`, `=%DD`, `D=D`, each for opening and closing.  The ring
+    key is the digit itself for a bare digit and the number formed by all digits behind a `%`; a bond order symbol applies
+    to the next marker only."""
+    model = RingModel(repo)
+    fi, fl = model.fi, model.fl
+    oid = "TOK.ring-marker-text"
+    lp = _scan_loop(model)
+    need(lp is not None, "cannot identify the loop that scans ring markers behind a node", fi)
+    # iterable: enumerate(<pattern>[<stop>:])
+    it = lp.ast.iter
+    need(isinstance(it, ast.Call) and isinstance(it.func, ast.Name) and it.func.id == "enumerate" and it.args and isinstance(it.args[0], ast.Subscript)
+         and isinstance(it.args[0].value, ast.Name) and isinstance(it.args[0].slice, ast.Slice) and isinstance(it.args[0].slice.lower, ast.Name),
+         "the ring scanning loop does not iterate enumerate(pattern[stop:])", fi, lp.ast)
+    pat_name, stop_name = it.args[0].value.id, it.args[0].slice.lower.id
+    # statements of the enclosing block that initialise the scanner state right before the loop
+    parent_body = None
+    for sub in ast.walk(fi.node):
+        for fld in ("body", "orelse"):
+            b = getattr(sub, fld, None)
+            if isinstance(b, list) and lp.ast in b:
+                parent_body = b
+    need(parent_body is not None, "ring scanning loop has no parent block", fi, lp.ast)
+    idx = parent_body.index(lp.ast)
+    pre = []
+    for st in reversed(parent_body[:idx]):
+        if isinstance(st, ast.Assign) and all(isinstance(t, ast.Name) for t in st.targets) and isinstance(st.value, (ast.Constant, ast.Name)):
+            pre.insert(0, st)
+        else:
+            break
+    # module/function level constants the loop reads
+    consts = {}
+    ndefs = {}
+    for d in fl.defs:
+        if d.kind not in ("unbound", "entryattr"):
+            ndefs[d.var] = ndefs.get(d.var, 0) + 1
+    for d in fl.defs:
+        if d.kind == "assign" and not d.path and d.value is not None and not enclosing_loops(fi, d.node) and ndefs.get(d.var) == 1:
+            try:
+                from ..model import fold_const
+                consts[d.var] = fold_const(d.value, fi.module)
+            except (ValueError, TypeError):
+                pass
+    list_names = {x.func.value.id for x in ast.walk(lp.ast) if isinstance(x, ast.Call) and isinstance(x.func, ast.Attribute) and x.func.attr in ("append", "extend")
+                  and isinstance(x.func.value, ast.Name)}
+    CUR = Tok("CUR")
+    N0 = Tok("N0")
+    scenarios = [
+        # (tail, table before, expected table after, expected closures)
+        ("1)", {}, {1: ("CUR", 1)}, []),
+        ("12[", {}, {1: ("CUR", 1), 2: ("CUR", 1)}, []),
+        ("%12[", {}, {12: ("CUR", 1)}, []),
+        ("%12%34)", {}, {12: ("CUR", 1), 34: ("CUR", 1)}, []),
+        ("%12}", {}, {12: ("CUR", 1)}, []),
+        ("=1[", {}, {1: ("CUR", 2)}, []),
+        ("=%12[", {}, {12: ("CUR", 2)}, []),
+        ("1=2[", {}, {1: ("CUR", 1), 2: ("CUR", 2)}, []),
+        ("=12[", {}, {1: ("CUR", 2), 2: ("CUR", 1)}, []),
+        ("=%12%34[", {}, {12: ("CUR", 2), 34: ("CUR", 1)}, []),
+        ("%12=3[", {}, {12: ("CUR", 1), 3: ("CUR", 2)}, []),
+        ("1[", {1: [N0, 3]}, {}, [("CUR", "N0", 3)]),
+        ("%12[", {12: [N0, 3]}, {}, [("CUR", "N0", 3)]),
+        ("%12[", {2: [N0, 3], 1: [N0, 3]}, {2: ("N0", 3), 1: ("N0", 3), 12: ("CUR", 1)}, []),
+        ("2%12[", {12: [N0, 3]}, {2: ("CUR", 1)}, [("CUR", "N0", 3)]),
+    ]
+    bad = []
+    n = 0
+    for tail, before, want_tbl, want_close in scenarios:
+        pattern = "[#A]" + tail
+        table = {k: list(v) for k, v in before.items()}
+        lists = {}
+
+        def load(ev, e, env):
+            if isinstance(e, ast.Name) and e.id not in env:
+                if e.id == model.table:
+                    return True, table
+                if e.id in list_names:
+                    return True, lists.setdefault(e.id, [])
+                if e.id in consts:
+                    return True, consts[e.id]
+                return True, Tok(e.id)
+            return False, None
+
+        def hook(ev, call, env):
+            f = call.func
+            if isinstance(f, ast.Name) and f.id == "enumerate" and call.args:
+                seq = ev.eval(call.args[0], env)
+                if isinstance(seq, str):
+                    return True, [(i, c) for i, c in enumerate(seq)]
+            return False, None
+        env = {pat_name: pattern, stop_name: 4}
+        cur_names = set()
+        ev = Evaluator(load_hook=load, call_hook=hook)
+        n += 1
+        try:
+            ev.block(pre + [lp.ast], env)
+        except Raised as r:
+            bad.append((tail, before, "raises " + r.exc_name))
+            continue
+        except Unsupported as err:
+            raise AnalysisError("ring scanning loop outside the evaluator's language: %s" % err, fi.where(lp.ast))
+        def norm(v):
+            v = list(v)
+            return (_nm(v[0]), v[1]) if len(v) == 2 else tuple(_nm(x) for x in v)
+        got_tbl = {k: norm(v) for k, v in table.items()}
+        closes = [tuple(_nm(x) for x in c) for lst in lists.values() for c in lst]
+        if got_tbl != want_tbl or closes != want_close:
+            bad.append((tail, before, "table %s closures %s (expected %s / %s)" % (got_tbl, closes, want_tbl, want_close)))
+    if bad:
+        return [ob_fail(oid, fi, lp.ast, construct="tail %r with open rings %s" % (b[0], sorted(b[1])), instance="marker-text",
+                        reason="the scanner gives " + b[2] + ": a ring marker's text is not read as documented (bare digit = one ring; % + all following digits = one ring; "
+                               "an order symbol applies to the next marker only)") for b in bad[:4]]
+    return [ob_ok(oid, fi, lp.ast, construct="ring scanning loop on %d representative tails" % n, instance="marker-text",
+                  reason="bare digits are one ring each, `%` takes all following digits, order symbols apply to the next marker, closing uses the stored node and order")]
+
+
+def _nm(x):
+    # which node variable is stored is judged by the ring protocol rule; here any node other than the stored opener is "CUR"
+    if isinstance(x, Tok):
+        return "N0" if str(x) == "N0" else "CUR"
+    return x
